@@ -176,7 +176,7 @@ _add(
          "one neuron step judged by the model-free invariants I1-I6 and (float64) by the one-step model from the "
          "observed pre-state (spike set, voltage, refractory time, and the batch-averaged adaptation that sets the next step's threshold / current). distinct = (class, dtype, dt, refractory ratio, drive, lock, adapt, spiking/quiet, batch).",
     required=["steps_checked", "spikes_seen", "reset_checks", "silence_window_steps", "adaptation_freeze_checks", "adaptation_law_checks",
-              "model_steps_checked", "exact_ties_checked", "mid_trajectory_clears", "adaptation_function_checks", "exact_ties_checked.linear_models"],
+              "model_steps_checked", "exact_ties_checked", "mid_trajectory_clears", "adaptation_function_checks", "exact_ties_checked.linear_models", "trajectories_of_retimed_neurons"],
     floor={"quick": 400, "thorough": 1500},
     text="Held on every trajectory explored (apart from the listed finding): every forward of the real neuron classes "
          "is checked for non-negative refractory time, spike attribute == returned spikes, no spike while refractory, "
@@ -356,7 +356,7 @@ _add(
          "configuration is compared (reported configuration, recordsz/dt/duration/inclusive of every internal "
          "RecordTensor, outputs from a cleared state on the same inputs). One evaluation = one assignment judged; "
          "distinct = (component kind, class, assigned attribute).",
-    required=["assignments_checked", "twin_comparisons", "output_comparisons", "assignments_after_use", "configured_dtype_checks"],
+    required=["assignments_checked", "twin_comparisons", "output_comparisons", "assignments_after_use", "configured_dtype_checks", "resting_state_comparisons"],
     floor={"quick": 40, "thorough": 80},
     text="Held on every assignment sequence explored: each real property setter reports the assigned value back, leaves "
          "every other reported attribute unchanged, and the setter-built object is indistinguishable - configuration, "
